@@ -510,7 +510,87 @@ func c15UpstreamEncodes(c *Ctx) {
 	st.NOutcomes = int(st.Execs)
 }
 
+// c15RewriteShapes: locations with several rewrite rules (applied one after the other) and request paths that no rule
+// matches but whose encoding Go keeps separately (escaped slash, parentheses): the origin receives them as sent.
+func c15RewriteShapes(c *Ctx) {
+	if !c.Want("rewrite-shapes") || c.Shard != 0 {
+		return
+	}
+	st := c.Stat("rewrite-shapes", "enumeration")
+	st.Bounds = "rule lists {one rule, two rules the second of which matches the first one's result, two independent rules} x 8 paths (3 of them matched by no rule and carrying %2F, %2f or parentheses) x {GET cold, GET hit-for-pass, POST}"
+	type loc struct {
+		rules []string
+		want  func(string) string
+	}
+	api := func(p string) string {
+		if strings.HasPrefix(p, "/api/") {
+			return "/" + strings.TrimPrefix(p, "/api/")
+		}
+		return p
+	}
+	v1 := func(p string) string {
+		if strings.HasPrefix(p, "/v1/") {
+			return "/v2/" + strings.TrimPrefix(p, "/v1/")
+		}
+		return p
+	}
+	img := func(p string) string {
+		if strings.HasPrefix(p, "/img/") {
+			return "/static/" + strings.TrimPrefix(p, "/img/")
+		}
+		return p
+	}
+	locs := []loc{
+		{[]string{"/api/*:/$1"}, api},
+		{[]string{"/api/*:/$1", "/v1/*:/v2/$1"}, func(p string) string { return v1(api(p)) }},
+		{[]string{"/img/*:/static/$1", "/api/*:/$1"}, func(p string) string { return api(img(p)) }},
+	}
+	paths := []string{"/api/v1/users", "/api/x", "/v1/y", "/img/cat", "/plain", "/files/a%2Fb", "/files/a%2fb/c", "/files/report(1).txt"}
+	for li, l := range locs {
+		cfg := env.BasicConfig(config.CacheConfig{})
+		cfg.Locations[0].Rewrites = l.rules
+		e := getEnv(cfg, fmt.Sprintf("c15-rw-%d", li))
+		for _, p := range paths {
+			for _, mode := range []string{"GET-cold", "GET-hfp", "POST"} {
+				freshCaches(cfg)
+				vtime.Set(vtime.Base)
+				e.Respond = c15Origin(false)
+				m := "GET"
+				if mode == "POST" {
+					m = "POST"
+				}
+				if mode == "GET-hfp" {
+					e.Do(env.Req{URI: p, Rid: "pro"})
+				}
+				e.Events()
+				r := e.Do(env.Req{Method: m, URI: p + "?q=1", Rid: "r"})
+				an := analyze(e.Events())
+				st.Execs++
+				kase := map[string]interface{}{"rules": l.rules, "path": p, "mode": mode}
+				calls := an.Reqs["r"].Calls
+				if len(calls) != 1 || r.Status != 200 {
+					c.Violation("rewrite-shapes", fmt.Sprintf("origin-contacts-%d", len(calls)), fmt.Sprintf("%s %s with rules %v: status %d", m, p, l.rules, r.Status), nil, kase, nil)
+					continue
+				}
+				if strings.Contains(p, "%") || strings.Contains(p, "(") {
+					// matched by no rule: the request target reaches the origin byte for byte
+					if calls[0].URI != p+"?q=1" {
+						c.Violation("rewrite-shapes", "unmatched-path-re-encoded", fmt.Sprintf("rules %v match nothing in %s, yet the origin received %q", l.rules, p, calls[0].URI), nil, kase, nil)
+					}
+					continue
+				}
+				if want := l.want(p); calls[0].Path != want {
+					c.Violation("rewrite-shapes", "path-not-as-configured", fmt.Sprintf("rules %v applied in order turn %s into %s; the origin received %s", l.rules, p, want, calls[0].Path), nil, kase, nil)
+				}
+			}
+		}
+	}
+	st.States, st.Transitions, st.Nontrivial = st.Execs, st.Execs, st.Execs
+	st.NOutcomes = int(st.Execs)
+}
+
 func c15Mix(c *Ctx) {
+	c15RewriteShapes(c)
 	c15NoLeak(c)
 	c15ReloadUpstreamOption(c)
 	c15UpstreamEncodes(c)
